@@ -1,10 +1,13 @@
 #!/bin/bash
-# usage: tools/seeds.sh <tier> <seed>...   runs every check for each seed on the current tree; prints anything that is not OK
+# usage: tools/seeds.sh <tier> <seed>... [-- C05 C10 ...]   runs checks for each seed on the current tree; prints anything that is not OK
 tier=$1; shift
+seeds=(); props=()
+while [ $# -gt 0 ]; do if [ "$1" = "--" ]; then shift; props=("$@"); break; fi; seeds+=("$1"); shift; done
+[ ${#props[@]} -eq 0 ] && props=(C01 C02 C03 C04 C05 C06 C07 C08 C09 C10 C11 C12 C13 C14 C15 C16 C17 C18 C19 C20)
 cd /verif
-for s in "$@"; do
-  for i in 01 02 03 04 05 06 07 08 09 10 11 12 13 14 15 16 17 18 19 20; do
-    out=$(VERIF_SEED=$s ./check C$i --tier $tier 2>&1 | grep -v '^WARNING')
-    if echo "$out" | grep -q '^OK '; then echo "seed=$s $(echo "$out" | grep '^OK ')"; else echo "seed=$s C$i NOT-OK"; echo "$out" | head -20; fi
+for s in "${seeds[@]}"; do
+  for p in "${props[@]}"; do
+    out=$(VERIF_SEED=$s ./check $p --tier $tier 2>&1 | grep -v '^WARNING')
+    if echo "$out" | grep -q '^OK '; then echo "seed=$s $(echo "$out" | grep '^OK ')"; else echo "seed=$s $p NOT-OK"; echo "$out" | head -20; fi
   done
 done
